@@ -1259,15 +1259,16 @@ bfs(const phase_t *ph, bfs_stat_t *st) {
 
 /* ------------------------------------------------------------------ phases */
 static void
-add_set_ops(phase_t *ph, int nsect, int nname, int nval, int zform_every) {
-	int s, n, v, k = 0;
-	for (v = 0; v < nval; v ++) {		/* simplest first: short values before long ones */
+add_set_ops(phase_t *ph, int nsect, int nname, const char *vals, int zform_every) {
+	int s, n, k = 0;
+	const char *v;
+	for (v = vals; *v; v ++) {		/* simplest first: the order of the value list */
 		for (s = 0; s < nsect; s ++) {
 			for (n = 0; n < nname; n ++) {
 				op_t *o = &ph->ops[ph->nops ++];
 				memset(o, 0, sizeof(*o));
 				o->kind = OP_SET;
-				o->sect = s; o->name = n; o->val = v;
+				o->sect = s; o->name = n; o->val = (*v - '0');
 				o->zform = (zform_every && (k ++ % zform_every) == 0);
 			}
 		}
@@ -1308,32 +1309,35 @@ phases_init(void) {
 		SNIPS[i].exact = (uint8_t *)vh_dup(SNIPS[i].text, SNIPS[i].len);
 	}
 
+	/* value indexes: 0 "", 1 "1", 2 40 x 'v', 3 "a=b", 4 17 x 'w' */
+
 	/* closed: ini_val_set only (plus an alternative initial store with blank lines and a comment),
-	 * searched until no new state appears => every set sequence of ANY length over the alphabet */
+	 * searched until no new state appears => every set sequence of ANY length over the alphabet.
+	 * quick: 2 sections x 2 names (k, K) x {"1", 40 bytes}; thorough: x {"", "1", 40 bytes, 17 bytes} */
 	PH_CLOSED.name = "closed";
 	PH_CLOSED.depth = MAXD - 1;
 	add_parse_op(&PH_CLOSED, 8, 1);
-	add_set_ops(&PH_CLOSED, 2, 2, vh_thorough ? 4 : 3, 5);
+	add_set_ops(&PH_CLOSED, 2, 2, vh_thorough ? "0124" : "12", 5);
 
-	/* mixed: everything, depth bounded */
-	PH_MIXED.name = "mixed";
-	PH_MIXED.depth = vh_thorough ? 4 : 3;
-	for (s = 0; s < 8; s ++)
-		add_parse_op(&PH_MIXED, s, 0);
-	add_set_ops(&PH_MIXED, 3, 3, 5, 7);
-	add_num_op(&PH_MIXED, OP_SET_INT, 0, 0, -12);
-	add_num_op(&PH_MIXED, OP_SET_UINT, 1, 2, 100);
-	add_num_op(&PH_MIXED, OP_SET_INT, 1, 1, 0);
-
-	/* deep: a smaller alphabet, two levels deeper */
+	/* deep: a smaller alphabet, more levels */
 	PH_DEEP.name = "deep";
 	PH_DEEP.depth = vh_thorough ? 6 : 5;
 	add_parse_op(&PH_DEEP, 0, 0);
 	add_parse_op(&PH_DEEP, 1, 0);
 	add_parse_op(&PH_DEEP, 2, 0);
 	add_parse_op(&PH_DEEP, 5, 0);
-	add_set_ops(&PH_DEEP, 2, 2, 3, 3);
+	add_set_ops(&PH_DEEP, 2, 2, "012", 3);
 	add_num_op(&PH_DEEP, OP_SET_UINT, 0, 1, 100);
+
+	/* mixed: everything, depth bounded */
+	PH_MIXED.name = "mixed";
+	PH_MIXED.depth = vh_thorough ? 4 : 3;
+	for (s = 0; s < 8; s ++)
+		add_parse_op(&PH_MIXED, s, 0);
+	add_set_ops(&PH_MIXED, 3, 3, "01234", 7);
+	add_num_op(&PH_MIXED, OP_SET_INT, 0, 0, -12);
+	add_num_op(&PH_MIXED, OP_SET_UINT, 1, 2, 100);
+	add_num_op(&PH_MIXED, OP_SET_INT, 1, 1, 0);
 }
 
 static phase_t *
@@ -1428,7 +1432,7 @@ main(int argc, char **argv) {
 			single_phase = argv[i + 1];
 			single_hist = argv[i + 2];
 			i += 2;
-		} else if (0 == strcmp(argv[i], "--phase") && i + 1 < argc)
+		} else if (0 == strcmp(argv[i], "--phases") && i + 1 < argc)	/* comma list */
 			only_phase = argv[++ i];
 	}
 	phases_init();
@@ -1436,15 +1440,15 @@ main(int argc, char **argv) {
 	if (NULL != single_phase)
 		return (single(single_phase, single_hist));
 
-	if (NULL == only_phase || 0 == strcmp(only_phase, "closed")) {
+	if (NULL == only_phase || NULL != strstr(only_phase, "closed")) {
 		bfs(&PH_CLOSED, &st);
 		if (0 == vh_shard) print_stat(cfg, &PH_CLOSED, &st);
 	}
-	if (NULL == only_phase || 0 == strcmp(only_phase, "deep")) {
+	if (NULL == only_phase || NULL != strstr(only_phase, "deep")) {
 		bfs(&PH_DEEP, &st);
 		if (0 == vh_shard) print_stat(cfg, &PH_DEEP, &st);
 	}
-	if (NULL == only_phase || 0 == strcmp(only_phase, "mixed")) {
+	if (NULL == only_phase || NULL != strstr(only_phase, "mixed")) {
 		bfs(&PH_MIXED, &st);
 		if (0 == vh_shard) print_stat(cfg, &PH_MIXED, &st);
 	}
